@@ -424,6 +424,13 @@ func (g *muxGen) stream(pid uint16, descBudget int) *astits.PMTElementaryStream 
 	case descBudget > 0 && g.r.Chance(1, 3):
 		es.ElementaryStreamDescriptors = psiGenDescs(g.r, descBudget)
 	}
+	// Descriptor.Length is filled in by the parser; the writers compute every length from the content, so a value left
+	// over from an earlier parse (the descriptor was edited since) must not matter
+	for _, d := range es.ElementaryStreamDescriptors {
+		if g.r.Chance(1, 3) {
+			d.Length = uint8(g.r.Intn(256))
+		}
+	}
 	return es
 }
 
@@ -1082,7 +1089,7 @@ func muxOutOfDomain(r *Rng, tier string) (int, []muxOp) {
 	g.setPCR(true)
 	for i := r.Range(3, 12); i > 0; i-- {
 		pid, _ := g.anyPID()
-		switch r.Intn(9) {
+		switch r.Intn(10) {
 		case 0:
 			g.ops = append(g.ops, muxOp{kind: opData, d: &astits.MuxerData{PID: pid}})
 		case 1:
@@ -1102,6 +1109,20 @@ func muxOutOfDomain(r *Rng, tier string) (int, []muxOp) {
 			g.data(pid, af, g.payloadSize())
 		case 6:
 			g.tables()
+		case 7:
+			// a hand-made packet whose adaptation field extension carries field values wider than their bit fields
+			// (piecewise rate above 22 bits, legal time window offset above 15 bits), then ordinary packets
+			e := &astits.PacketAdaptationExtensionField{HasPiecewiseRate: true, PiecewiseRate: 0x400000 | uint32(r.Bits(24)), HasLegalTimeWindow: r.Bool(),
+				LegalTimeWindowOffset: 0x8000 | uint16(r.Bits(15)), Length: 6}
+			if !e.HasLegalTimeWindow {
+				e.Length = 4
+			}
+			af := &astits.PacketAdaptationField{HasAdaptationExtensionField: true, AdaptationExtensionField: e}
+			used := 4 + 1 + 1 + e.Length + 1
+			p := &astits.Packet{Header: astits.PacketHeader{PID: pid, HasAdaptationField: true, HasPayload: true, ContinuityCounter: uint8(r.Intn(16))},
+				AdaptationField: af, Payload: r.Bytes(188 - used)}
+			g.ops = append(g.ops, muxOp{kind: opPacket, p: p})
+			g.writePacket()
 		default:
 			g.data(pid, nil, g.payloadSize())
 		}
